@@ -217,3 +217,101 @@ func CreateFvCase(r *Rng) (img []byte, off, size uint64, name [16]byte) {
 	copy(name[:], r.Bytes(16))
 	return
 }
+
+// ---------- nested volumes in carrier files of any sectioned type ----------
+
+// GenCaseCarrier: the first operation is an insert (after / before / replace, both spellings) whose
+// target is a file inside a nested volume, and that volume's FV-image section sits in a file whose
+// type is NOT the FV-image file type (a driver, application, core...). Legal, parsed by fiano and
+// listed by find: the insert has to happen there as anywhere else. ok=false: the draws gave no such
+// image.
+func GenCaseCarrier(r *Rng) (ECase, bool) {
+	for try := 0; try < 40; try++ {
+		reg := GenRegionSpec(r, 1, true)
+		var cands []string
+		for _, e := range reg.Elems {
+			if e.Vol == nil || !isFFS(e.Vol) {
+				continue
+			}
+			for _, f := range e.Vol.Files {
+				if f.Type == 11 {
+					continue
+				}
+				for _, s := range f.Secs {
+					if s.Vol == nil {
+						continue
+					}
+					for _, g := range s.Vol.Files {
+						t := GuidText(g.GUID)
+						if len(findSpec(reg, matcherOf(t, false), true, -1)) == 1 {
+							cands = append(cands, t)
+						}
+					}
+				}
+			}
+		}
+		if len(cands) == 0 {
+			continue
+		}
+		saved := Compressed
+		Compressed = false
+		nf := GenFileSpec(r, 0, 0, r.Chance(1, 2))
+		Compressed = saved
+		it := []string{"after", "before", "replace", "gafter", "gbefore", "after"}[r.Intn(6)]
+		o := EOp{Kind: "ins", It: it, Target: randCase(r, cands[r.Intn(len(cands))]), Spec: nf, Data: EmitFile(nf)}
+		return caseOn(r, reg, 1, []EOp{o}, r.Pick(0, 0, 1)), true
+	}
+	return ECase{}, false
+}
+
+// ---------- an edit that cannot fit ----------
+
+// GenCaseNoFit: an insert (any position; file or volume target) of a file that is larger than every
+// top-level volume of the image: the operation itself succeeds (the target selects exactly one
+// thing), assembling fails for lack of space, so save must report the error and write nothing.
+// Top-level volumes are never resized.
+func GenCaseNoFit(r *Rng) (ECase, bool) {
+	for try := 0; try < 40; try++ {
+		reg := GenRegionSpec(r, r.Pick(0, 0, 1), true)
+		img, _ := uefigen.EmitRegion(reg)
+		max := 0
+		var files, vols []string
+		for _, e := range reg.Elems {
+			if e.Vol == nil {
+				continue
+			}
+			if e.Vol.Length > max {
+				max = e.Vol.Length
+			}
+		}
+		fs, vs := present(reg)
+		for _, t := range fs {
+			if len(findSpec(reg, matcherOf(t, false), true, -1)) == 1 {
+				files = append(files, t)
+			}
+		}
+		for _, t := range vs {
+			if ms := findSpec(reg, matcherOf(t, false), true, -1); len(ms) == 1 && !ms[0].isFile && isFFS(ms[0].vol) {
+				vols = append(vols, t)
+			}
+		}
+		if len(files)+len(vols) == 0 || len(img) > 24000 {
+			continue
+		}
+		nf := &uefigen.File{GUID: poolGUID(6), Type: 0xC0, State: validState(), Body: r.Bytes(max + r.Pick(0, 1, 100))}
+		var o EOp
+		if len(vols) > 0 && (len(files) == 0 || r.Chance(1, 3)) {
+			o = EOp{Kind: "ins", It: []string{"front", "end", "gfront", "gend"}[r.Intn(4)], Target: randCase(r, vols[r.Intn(len(vols))])}
+		} else {
+			o = EOp{Kind: "ins", It: insKinds[r.Intn(len(insKinds)-1)], Target: randCase(r, files[r.Intn(len(files))])}
+		}
+		o.Spec, o.Data = nf, EmitFile(nf)
+		var ops []EOp
+		if r.Chance(1, 3) {
+			ops = append(ops, GenRO(r, reg))
+		}
+		ops = append(ops, o)
+		return ECase{Img: img, Ops: ops, Reg: reg, Comp: RegionHasCompressed(reg)}, true
+	}
+	return ECase{}, false
+}
